@@ -7,7 +7,7 @@ sys.path.insert(0, os.path.dirname(os.path.abspath(__file__)))
 
 def main():
     ok = True
-    for mod in ("gen_consts", "gen_config"):
+    for mod in ("gen_consts", "gen_config", "gen_config_static"):
         try:
             m = __import__(mod)
         except ImportError:
